@@ -26,7 +26,7 @@ try: m = json.load(open(p))
 except Exception: m = {}
 m['confirmed'] = {'demo_clean_exit': sys.argv[2], 'demo_patched_exit': sys.argv[3], 'pinned_suite_with_patch': sys.argv[4],
                   'by': 'tools/eval2.sh (scratch worktree of /repo HEAD, removed afterwards)'}
-m['round'] = 2
+m['round'] = int(__import__('os').environ.get('ROUND', '2'))
 json.dump(m, open(p, 'w'), indent=1)
 PY
   for q in $P $ALSO; do
